@@ -319,6 +319,21 @@ pub enum Sut {
     Blocker(Box<Blocker>, ResourceStorage),
 }
 
+pub fn resource_collides(accepted: &[ResSpec], rs: &ResSpec) -> bool {
+    accepted.iter().any(|m| std::iter::once(&m.name).chain(m.aliases.iter()).any(|n| n == &rs.name || rs.aliases.contains(n)))
+}
+
+/// Which resources of a list a store accepts when they are added in order.
+pub fn accept_resources(list: &[ResSpec]) -> Vec<ResSpec> {
+    let mut out: Vec<ResSpec> = vec![];
+    for r in list {
+        if !resource_collides(&out, r) {
+            out.push(r.clone());
+        }
+    }
+    out
+}
+
 pub fn to_resource(rs: &ResSpec) -> Resource {
     use base64::{engine::Engine as _, prelude::BASE64_STANDARD};
     let kind = match rs.kind.as_str() {
@@ -794,7 +809,7 @@ impl<'a> Exec<'a> {
         let mut model = Model {
             rules: w.rules.clone(),
             tags: BTreeSet::new(),
-            resources: w.resources.clone(),
+            resources: accept_resources(&w.resources),
             optimize: w.knobs.optimize,
             debug: w.knobs.debug,
             from_bytes: None,
@@ -980,15 +995,15 @@ impl<'a> Exec<'a> {
                     Op::UseResources(idx) => {
                         let rs: Vec<ResSpec> = idx.iter().map(|i| w.resources[*i].clone()).collect();
                         sut.set_resources(&rs);
-                        model.resources = rs;
+                        // the model keeps what a store must have accepted: a resource is taken as a whole
+                        // unless one of its identifiers is already in use
+                        model.resources = accept_resources(&rs);
                         model.version += 1;
                     }
                     Op::AddResource(i) => {
                         let rs = &w.resources[*i];
                         let ok = sut.add_resource(rs);
-                        let dup = model.resources.iter().any(|m| {
-                            std::iter::once(&m.name).chain(m.aliases.iter()).any(|n| n == &rs.name || rs.aliases.contains(n))
-                        });
+                        let dup = resource_collides(&model.resources, rs);
                         if ok {
                             model.resources.push(rs.clone());
                             model.version += 1;
@@ -1258,6 +1273,7 @@ pub fn kitchen_sink_world() -> World {
         tag_on_modifiers: false,
         extra: 8,
         tiny_patterns: true,
+        non_ascii_urls: false,
     };
     let mut w = gen_world(0x5157_a7e5, &p);
     for k in 1..12u64 {
